@@ -6,7 +6,13 @@
    Witnesses ("_refuted") are real histories of the machine model
    (C06Proofs.hist_events: flat or small schemas, top-level calls, scheduled
    subscription operations); each is replayed on the implementation from
-   corpus/C06. *)
+   corpus/C06. The model follows /repo as repaired by the commits d91331e
+   (When with a context listed once), bef071d (SetSchema keeps the live clock),
+   1b182d7 (ProcessWhenQueue for canceled transitions), 67f008f (dispose closes
+   WhenQuery), 296eb40 (WhenQuery with a context); the refutations of those
+   defects are gone, [repaired_examples] keeps their witnesses.
+   Not proved: whentime_iff (the WhenTime index is covered by the
+   correspondence run only). *)
 From Coq Require Import List NArith Bool Arith.
 From AMV Require Import Base.ListSet Model.Schema Model.Machine Model.Subs Model.SubsTrace Spec.C06.
 From AMV Require Proofs.C06Proofs.
@@ -14,7 +20,7 @@ Import ListNotations.
 
 (* ------------------------------------------------------------------------
    When / WhenNot. Notions (Spec/C06.v):
-     plain_ev     no context ends, no Dispose, no WhenQuery with a context
+     plain_ev     no context ends, no Dispose
      coherent a   the activity read by the When / WhenNot calls is the activity
                   told to the manager by processSubscriptions (act_upd)
      told_cond    all states of the binding (in)active on the told activity
@@ -103,75 +109,63 @@ Theorem when_spurious_partial : forall a0 pre k v neg sts ctx post,
 Proof. exact C06Proofs.when_spurious_partial_lemma. Qed.
 Print Assumptions when_spurious_partial.
 
-(* Stated: "WhenQuery returns a channel that closes when ... or its context
-   ended". False: with a context the call panics. *)
-Theorem whenquery_ctx_refuted :
-  (forall (s : sst) (v : view) (f : qfn) (c : nat),
-      ss_disposed s = false -> mem c (ss_done s) = false ->
-      snd (do_op s v (OWhenQuery f (Some c))) = RPanic) /\
-  (exists es : list sevent, ss_crashed (run init_sst es) = true).
-Proof. exact C06Proofs.whenquery_ctx_refuted_lemma. Qed.
-Print Assumptions whenquery_ctx_refuted.
 
-(* Stated: whentime_iff for all histories incl. schema growth. False after
-   SetSchema. (whentime_iff without SetSchema is NOT proved: the WhenTime index
-   is only covered by the correspondence run.) *)
-Theorem whentime_setschema_refuted :
-  exists (sc : schema) (calls : list api_call) (ops : list sched_op),
-    let es := C06Proofs.hist_events sc [] [] calls ops in
-    nth 1 ops (C06Proofs.at_call 0 ONop) = C06Proofs.at_call 1 (OWhenTicks 0 1 None) /\
-    existsb (fun vp : view * bool => snd vp && (2 <=? tick_of (v_clock (fst vp)) 0)%N)
-            (C06Proofs.tx_end_views es) = true /\
-    existsb (fun e => match e with
-                      | EOp _ v (OWhenTicks 0 1 None) => N.eqb (tick_of (v_clock v) 0) 1
-                      | _ => false end) es = true /\
-    last (C06Proofs.polls_of ops es) [] = [false; false].
-Proof. exact C06Proofs.whentime_setschema_refuted_lemma. Qed.
-Print Assumptions whentime_setschema_refuted.
 
-(* Stated: "WhenQueue(tick) never stays open once the queue has processed the
-   tick". False when the mutation carrying the tick is canceled. *)
-Theorem whenqueue_canceled_refuted :
-  exists (sc : schema) (calls : list api_call) (t : N),
-    let ops := [C06Proofs.at_call 0 (OWhenQueue t)] in
-    let es := C06Proofs.hist_events sc [] [] calls ops in
-    existsb (fun vp : view * bool => negb (snd vp) && cond (OWhenQueue t) (fst vp))
-            (C06Proofs.tx_end_views es) = true /\
-    C06Proofs.polls_of ops es = [[false]; [false]].
-Proof. exact C06Proofs.whenqueue_canceled_refuted_lemma. Qed.
-Print Assumptions whenqueue_canceled_refuted.
 
-(* what remains true, over ALL event lists (ended contexts, SetSchema, Dispose
-   included) that do not hit the WhenQuery panic: the channel is closed if the
-   tick was reached when subscribing or by a later processSubscriptions *)
-Theorem whenqueue_partial : forall pre k v t post,
+(* WhenQueue, over ALL event lists (ended contexts, SetSchema, Dispose included):
+   the channel is closed if the tick was reached when subscribing or by a later
+   processSubscriptions / by the ProcessWhenQueue of a later canceled transition
+   (processed_with counts both). The other direction (never closed before) is
+   covered by the correspondence run only. *)
+Theorem whenqueue_no_lost : forall pre k v t post,
   let es := pre ++ EOp k v (OWhenQueue t) :: post in
-  fresh_k k post -> ss_crashed (run init_sst es) = false ->
+  fresh_k k post ->
   (t <=? v_qtick v)%N || processed_with (fun qt => (t <=? qt)%N) post = true ->
   closed_of (run init_sst es) k = true.
-Proof. exact C06Proofs.whenqueue_partial_lemma. Qed.
-Print Assumptions whenqueue_partial.
+Proof. exact C06Proofs.whenqueue_no_lost_lemma. Qed.
+Print Assumptions whenqueue_no_lost.
 
 (* WhenQueueEnds: closed at once on an idle machine, else by the next queue end *)
 Theorem whenqueueends : forall pre k v post,
   let es := pre ++ EOp k v OWhenQueueEnds :: post in
-  fresh_k k post -> ss_crashed (run init_sst es) = false ->
-  v_running v = false \/ In EQueueEnd post ->
+  fresh_k k post -> v_running v = false \/ In EQueueEnd post ->
   closed_of (run init_sst es) k = true.
 Proof. exact C06Proofs.whenqueueends_lemma. Qed.
 Print Assumptions whenqueueends.
 
-(* Stated: when_single_state_iff for all op lists. False once a multi-state
-   When with a context sharing the state had its context ended. *)
-Theorem when1_lost_refuted :
-  exists (sc : schema) (calls : list api_call) (ops : list sched_op),
-    let es := C06Proofs.hist_events sc [] [] calls ops in
-    nth 1 ops (C06Proofs.at_call 0 ONop) = C06Proofs.at_call 0 (OWhen [0] None) /\
-    existsb (fun vp : view * bool => snd vp && cond (OWhen [0] None) (fst vp))
-            (C06Proofs.tx_end_views es) = true /\
-    nth 1 (last (C06Proofs.polls_of ops es) []) true = false.
-Proof. exact C06Proofs.when1_lost_refuted_lemma. Qed.
-Print Assumptions when1_lost_refuted.
+(* WhenQuery, with or without a context, over ALL event lists: closed once a
+   later processSubscriptions finds the predicate true on the clock (never
+   served by canceled / check transitions: known finding 2:659) *)
+Theorem whenquery_no_lost : forall pre k v f ctx post,
+  let es := pre ++ EOp k v (OWhenQuery f ctx) :: post in
+  fresh_k k post -> query_held f post = true ->
+  closed_of (run init_sst es) k = true.
+Proof. exact C06Proofs.whenquery_no_lost_lemma. Qed.
+Print Assumptions whenquery_no_lost.
+
+(* no run of the manager panics inside processSubscriptions any more *)
+Theorem never_crashed : forall es, ss_crashed (run init_sst es) = false.
+Proof. exact C06Proofs.never_crashed_lemma. Qed.
+Print Assumptions never_crashed.
+
+(* the histories that witnessed the repaired defects (SetSchema clock copy,
+   WhenQueue of a canceled mutation, double gc of a multi-state When with a
+   context, WhenQuery with a context), as served now *)
+Theorem repaired_examples :
+  last (C06Proofs.polls_of C06Proofs.w3_ops (C06Proofs.hist_events (C06Proofs.flat_schema 1) [] []
+          [C06Proofs.call KAdd [0]; C06Proofs.call KRemove [0]; C06Proofs.call KAdd [0]] C06Proofs.w3_ops)) []
+    = [false; true] /\
+  C06Proofs.polls_of [C06Proofs.at_call 0 (OWhenQueue 2)]
+    (C06Proofs.hist_events C06Proofs.req_schema [] [] [C06Proofs.call KAdd [0]]
+       [C06Proofs.at_call 0 (OWhenQueue 2)]) = [[true]; [true]] /\
+  nth 1 (last (C06Proofs.polls_of C06Proofs.w5_ops (C06Proofs.hist_events (C06Proofs.flat_schema 3) [] []
+                 [C06Proofs.call KAdd [2]; C06Proofs.call KAdd [0]] C06Proofs.w5_ops)) []) false = true /\
+  (forall (s : sst) (v : view) (f : qfn) (c : nat),
+      ss_disposed s = false -> mem c (ss_done s) = false ->
+      snd (do_op s v (OWhenQuery f (Some c))) = RChan (ss_next s)).
+Proof. exact C06Proofs.repaired_examples_lemma. Qed.
+Print Assumptions repaired_examples.
+
 
 (* Stated: statectx_iff_tick_changed for all schedules. False for a context
    made between setActiveStates and ProcessStateCtx. *)
@@ -191,8 +185,7 @@ Print Assumptions statectx_window_refuted.
    (fault-free: exactly the transitions that move its tick) ... *)
 Theorem statectx_partial : forall pre k v x post,
   let es := pre ++ EOp k v (ONewStateCtx x) :: post in
-  fresh_k k post -> ss_crashed (run init_sst es) = false -> known v [x] = true ->
-  ctx_touched x post = true ->
+  fresh_k k post -> known v [x] = true -> ctx_touched x post = true ->
   closed_of (run init_sst es) k = true.
 Proof. exact C06Proofs.statectx_partial_lemma. Qed.
 Print Assumptions statectx_partial.
@@ -216,6 +209,9 @@ Theorem queue_ctx_nonvacuous :
   (let post := [EStateCtx [1] [0]] in
    let es := C06Proofs.ex_pre ++ EOp 0 v (ONewStateCtx 0) :: post in
    ss_crashed (run init_sst es) = false /\ known v [0] = true /\ ctx_touched 0 post = true /\
-   closed_of (run init_sst (C06Proofs.ex_pre ++ [EOp 0 v (ONewStateCtx 0)])) 0 = false).
+   closed_of (run init_sst (C06Proofs.ex_pre ++ [EOp 0 v (ONewStateCtx 0)])) 0 = false) /\
+  (processed_with (fun qt => (3 <=? qt)%N) [EQueueTick 3] = true /\
+   query_held (QActive 1) C06Proofs.ex_post = true /\
+   closed_of (run init_sst (C06Proofs.ex_pre ++ [EOp 0 v (OWhenQuery (QActive 1) (Some 1))])) 0 = false).
 Proof. exact C06Proofs.queue_ctx_nonvacuous_lemma. Qed.
 Print Assumptions queue_ctx_nonvacuous.
